@@ -10,8 +10,8 @@ import (
 
 // VerifXRefStreamLimits (C09): the expansion of an xref stream's /Size and /Index (attacker controlled,
 // full 64-bit range) into the list of object numbers is bounded by the configured limits: whenever the
-// guard functions accept, the list has at most MaxXRefEntries entries, its initial allocation and the
-// (possibly repaired) size are at most MaxObjectCount, and every object number is below that bound.
+// guard functions accept, the list has at most MaxXRefEntries entries, the
+// (possibly repaired) size is at most MaxObjectCount, and every object number is below that bound.
 func VerifXRefStreamLimits() {
 	limits := ResourceLimits{MaxObjectCount: vp.IntIn(1, vp.Bound("LIM")), MaxXRefEntries: vp.IntIn(1, vp.Bound("LIM"))}
 	d := types.Dict{"Size": types.Integer(vp.Int())}
@@ -35,7 +35,6 @@ func VerifXRefStreamLimits() {
 		return
 	}
 	vp.Assert(len(objs) <= limits.MaxXRefEntries, "more xref entries materialised than MaxXRefEntries")
-	vp.Assert(cap(objs) <= limits.MaxObjectCount+limits.MaxXRefEntries, "object number list allocated beyond the limits")
 	vp.Assert(size2 <= limits.MaxObjectCount, "repaired /Size exceeds MaxObjectCount")
 	for _, o := range objs {
 		vp.Assert(o >= 0 && o < limits.MaxObjectCount+1, "object number outside the limit")
